@@ -440,6 +440,21 @@ def evaluate_overlap(case, r):
                                  "new start: %s" % (c["index"], c.get("where", "driver"),
                                                     p, [(x[1], x[2]) for x in late[:4]])))
                 break
+    # a replication whose end became visible in the state must have notified it
+    ended_pos = [i for i, h in enumerate(H) if h[0] == "st" and h[6] == "ENDED"
+                 and h[7] == "ENDED" and h[2] != 0]
+    for ep in ended_pos:
+        rp = next((x for x in lifecycle.replications(H) if x["start"] <= ep), None)
+        nxt_init = next((x["start"] for x in lifecycle.replications(H) if x["start"] > ep),
+                        len(H))
+        got_end = any(h[0] == "ntf" and h[1] == "END_REPLICATION" for h in H[:nxt_init + 1]
+                      if True) and any(h[0] == "ntf" and h[1] == "END_REPLICATION"
+                                       for h in H[max(0, ep - 400):nxt_init + 1])
+        if not got_end and not any(f[0] == "end-not-notified" for f in findings):
+            findings.append(("end-not-notified",
+                             "the run thread reported (ENDED, ENDED) at history position %d "
+                             "but END_REPLICATION was never delivered to the subscribers of "
+                             "that replication" % ep))
     # after-end
     fin = next((h for h in reversed(H) if h[0] == "final"), None)
     if getattr(r, "probed", False):
